@@ -22,3 +22,24 @@ Definition request_dist_error (cl : req_class) (o : oracle) (st : cstate) : csta
       (st', r, program (kind_of cl (o_lang o) r))
   | _ => request no_faults cl CCDefault o st
   end.
+
+(* ---------- result keys read from preprocessor-cache FILES are untrusted ---------- *)
+
+(* A preprocessor-cache entry is a file: the result key it names is an arbitrary byte string, not necessarily
+   something `hash_key` produced (it may be empty, contain '/', "..", non-ASCII bytes ...).  `generate_hash_key`
+   only uses it if it has the form of a digest — 64 lower-case hexadecimal digits — (fix "a malformed result key
+   in a preprocessor cache entry is a miss, not a path"); any other entry reads as "no usable entry", like an
+   unparsable one: the preprocessor runs and the entry is rewritten. *)
+Definition is_hex_digit (c : N) : bool :=
+  ((48 <=? c) && (c <=? 57)) || ((97 <=? c) && (c <=? 102)).
+
+Definition wf_result_key (k : key) : bool :=
+  (N.of_nat (length k) =? 64) && forallb is_hex_digit k.
+
+(* what a well-formed entry FILE naming result key [k] for include state [m] amounts to *)
+Definition read_entry_file (k : key) (m : N) : ppentry :=
+  if wf_result_key k then PGood k m else PUnparse.
+
+(* the cache state after the entry under [pk] was replaced (behind the server's back) by such a file *)
+Definition forge_pp (pk : key) (k : key) (m : N) (st : cstate) : cstate :=
+  {| cs_res := cs_res st; cs_pp := kv_set pk (read_entry_file k m) (cs_pp st); cs_ro := cs_ro st |}.
